@@ -133,7 +133,10 @@ Obs(t1) == [res |-> IF t1.panic THEN "panic" ELSE "ok", cx |-> t1.cx, cy |-> t1.
 T0(gg) == [data |-> [i \in 1..(gg.w * (gg.h + gg.sb)) |-> Code(SP, gg.fg, gg.bg)], cx |-> 1, cy |-> 1, vy |-> 0, off |-> 0,
            st |-> 0, scr |-> [i \in 1..(gg.w * gg.h) |-> Garbage], calls |-> <<>>, panic |-> FALSE]
 AttachEv(gg, t1) == [k |-> "attach", w |-> gg.w, h |-> gg.h, sb |-> gg.sb, tab |-> gg.tab, dfg |-> gg.fg, dbg |-> gg.bg,
-                     cons |-> Cons.kind, gc |-> Cons.gc, gi |-> Cons.gi] @@ Obs(t1)
+                     cons |-> Cons.kind, gc |-> Cons.gc, gi |-> Cons.gi,
+                     \* the screen holds exactly the cells (the mutant's console reports a column that is not there)
+                     pw |-> IF Bug = "GridExceedsScreen" THEN gg.w - 1 ELSE gg.w, ph |-> gg.h, gw |-> 1, gh |-> 1, offy |-> 0]
+                    @@ Obs(t1)
 
 Init ==
   \E w \in Ws, h \in Hs, sb \in SBs, tab \in TABs :
